@@ -14,6 +14,24 @@ INFO = {
  "C03": ("model-based PBT + metamorphic permutation relation (rapid)",
          "Accept/reject verdicts and per-point routing predicted by the statement's rules are compared with the file content after each write; the last batch is re-run permuted and must give byte-identical files. Exploration.",
          TB + "Z2: same-slot points with distinct timestamps are supplied in time order."),
+ "C05": ("stateful PBT (rapid) with byte-level invariants over the history: file re-read after every operation, independent parser vs. last-synced model",
+         "After every operation of a generated history the file bytes are re-read: length fixed, unchanged outside Sync, and equal (through an independent parser) to the model state of the last Sync - each operation boundary is a simulated crash point; after each Sync a second handle, the live handle and the disk agree. Exploration.",
+         TB + "The page cache stands in for the disk; crashes during Sync are out of scope."),
+ "C06": ("differential testing against go-whisper on the same bytes + independent format parser (rapid)",
+         "Files written by either implementation are decoded by a specification parser and read by both libraries; metadata and best-archive fetches of non-degenerate windows must agree. Exploration.",
+         TB + "go-whisper (pinned version from /repo's go.sum) is the reference reader; realistic clocks."),
+ "C07": ("PBT with single-rule boundary mutation against an exact-arithmetic validity predicate; differential across four entry points + CLI flags (rapid)",
+         "Archive lists mutated at each rule boundary and at 32-bit limits are judged in int64 arithmetic; NewHeader/Create, the retention-string parser, header decoding and Open, and the CLI flag values must all give that verdict; accepted layouts are created, synced, reopened and compared byte for byte. Exploration.",
+         TB + "Z3 grey zone (retention in [2^31,2^32), file end beyond 2^32) gets no verdict."),
+ "C14": ("round-trip PBT over generated objects with framing/prefix protocol oracle (rapid; native go fuzz target FuzzC14 available)",
+         "Generated headers, series, point lists, points, values (all float64 bit patterns), timestamps and durations are encoded, concatenated, followed by trailing bytes, decoded and compared bit for bit; proper prefixes must yield a want-larger-buffer request with a size in (given, complete]. Exploration.",
+         TB + "Series satisfy until = from + n*step within 32 bits."),
+ "C15": ("fuzzing with structure-aware mutation of specification-encoded messages, executed in an RLIMIT_AS-sandboxed child with allocation accounting (rapid)",
+         "Random and mutated byte strings are fed to every decoder, to Open + operations on the opened handle, and to the client-side decoders through a hostile HTTP server; a panic, child death or allocation beyond 1 MiB + 64 x input is a violation. Exploration.",
+         TB + "Hangs are reported as inconclusive; allocation measured with runtime/metrics."),
+ "C19": ("round-trip PBT + independent big-integer / calendar evaluation of generated strings (rapid); exhaustive enumeration of all 2^31 durations, 2^32 timestamps and all strings up to length 5 in the thorough tier",
+         "parse(print(x)) == x and exact-meaning checks on generated values and strings; the thorough tier enumerates the two 32-bit domains and the short-string space completely, through the same judges. Exploration (exhaustive on the enumerated sub-domains).",
+         TB + "Years outside 1970-2106, redundant leading zeros and fractional seconds get no verdict."),
  "C04": ("PBT against an executable contract in exact arithmetic (rapid), metamorphic over stored content",
          "The fetch shape contract is evaluated in int64 arithmetic and compared for generated (layout, clock, window, id) tuples on empty, partly written and written files. Exploration.",
          TB + "Clock in zone Z7."),
